@@ -476,6 +476,42 @@ theorem C15_buy_position (c : TokenCfg) (s s' : DState) (r : Req) (fills : List 
       field_simp
       ring
 
+/-- **size-weighted average sell price** (exact arithmetic): a position that survives a sell carries
+    `(old avg × old sold + Σ price × size) / (old sold + filled)` as its average sell price -/
+theorem C15_sell_avg_price (c : TokenCfg) (s s' : DState) (r : Req) (fills : List Fill) (fee : Rat)
+    (h : sell DCtx.exact c s r = (.ok (.trade fills fee), s')) (hfs : fillSum fills = roundDec c.tradeExp r.amount)
+    (hpos : fillSum fills ≠ 0) :
+    ∃ p, AList.get? s.positions r.name = some p ∧
+      (p.amount - fillSum fills ≤ 0 → s'.positions = AList.erase s.positions r.name) ∧
+      (¬ p.amount - fillSum fills ≤ 0 → ∃ p', AList.get? s'.positions r.name = some p' ∧
+        p'.amount = p.amount - fillSum fills ∧ p'.sellAmt = p.sellAmt + fillSum fills ∧
+        (p.sellAmt + fillSum fills ≠ 0 →
+          p'.avgSell = (p.avgSell * p.sellAmt + fillCost fills) / (p.sellAmt + fillSum fills))) := by
+  obtain ⟨_, ck, p, _, hck, hp, _, _, fills', _, _, _, _, _, hres, hs'⟩ := sell_ok h
+  simp only [Res.trade.injEq] at hres
+  obtain ⟨rfl, _⟩ := hres
+  have hamt := (checkTx_ok hck).2.2.2.1
+  have hca : ck.amount = fillSum fills := by rw [hamt, hfs]
+  have havg : avgPrice DCtx.exact fills = fillCost fills / fillSum fills := by
+    unfold avgPrice; rw [amountOf_exact, premiumOf_exact]; simp [hpos]
+  refine ⟨p, hp, ?_, ?_⟩
+  · intro hle
+    rw [hs']
+    simp only [soldPosition, exact_num, NumCtx.exact_sub, hca, hle, if_true]
+  · intro hgt
+    refine ⟨soldPosition DCtx.exact p ck.amount (avgPrice DCtx.exact fills), ?_, ?_, ?_, ?_⟩
+    · rw [hs']
+      simp only [soldPosition, exact_num, NumCtx.exact_sub, hca, hgt, if_false]
+      exact AList_get_set _ _ _
+    · simp only [soldPosition, exact_num, NumCtx.exact_sub, hca]
+    · simp only [soldPosition, exact_num, NumCtx.exact_add, hca]
+    · intro hne
+      have hne' : fillSum fills + p.sellAmt ≠ 0 := by rwa [add_comm] at hne
+      simp only [soldPosition]
+      rw [havg, hca, Deribit.avgPrice_two _ _ _ _ hne']
+      field_simp
+      ring
+
 /-- **no fill, no change**: an order that raises leaves cash, positions, visible book, wallet and action
     log exactly as they were (every context) -/
 theorem C15_rejected_order_changes_nothing (cx : DCtx) (c : TokenCfg) (s s' : DState) (r : Req) (e : Err) :
